@@ -1,5 +1,5 @@
 (* C15 -- witnesses.  (1) Regression: the sequences on which the tree violated
-   the invariant before the repairs (d815d97 .. 71a6c5d, fb2ee00, c6d3509, d57f5bc, 0b78ced) now keep the
+   the invariant before the repairs (d815d97 .. 71a6c5d, fb2ee00, c6d3509, d57f5bc, 0b78ced, 3441338, 6bdc56b) now keep the
    full invariant in the model of the current code.  (2) Refutation: states
    satisfying the full invariant and one operation after which the code as it
    stands ([pinned]) still violates it; for the one with a proposed repair
@@ -87,23 +87,20 @@ Proof. split; vm. Qed.
 Lemma w_deref : inv_full (w_deref_pre pinned) = true /\ inv_full (fst (step pinned (w_deref_pre pinned) w_deref_op)) = true.
 Proof. split; vm. Qed.
 
-(* (2) still open *)
-(* deleting an intermediate alias leaves the aliases that went through it resolved to the old target *)
+(* deleting an intermediate alias now re-resolves the aliases that went through it (3441338) *)
 Definition w_inter_pre c := run c init_state [konst false None x_ 0; OAlias None b_ x_ 0; OAlias None a_ b_ 0].
 Definition w_inter_op := ODel b_ 8.
-Lemma w_inter : inv_full (w_inter_pre pinned) = true /\ alias_resolved (fst (step pinned (w_inter_pre pinned) w_inter_op)) = false
-  /\ inv_full (fst (step fixed (w_inter_pre fixed) w_inter_op)) = true.
-Proof. repeat split; vm. Qed.
+Lemma w_inter : inv_full (w_inter_pre pinned) = true /\ inv_full (fst (step pinned (w_inter_pre pinned) w_inter_op)) = true.
+Proof. split; vm. Qed.
+(* gd_madd*() through a parent code with the leading '.' that lookup drops (6bdc56b) *)
+Definition w_dotpar_pre c := run c init_state [konst false None [97; 98] 0].
+Definition w_dotpar_op := OAdd false (Some [46; 97; 98]) x_ T_PHASE 0 false [[97; 98]] [None] 0%Z.
+Lemma w_dotpar : inv_full (fst (step pinned (w_dotpar_pre pinned) w_dotpar_op)) = true.
+Proof. vm. Qed.
+
+(* (2) still open *)
 (* cross-container: adding the target of a top-level alias below a parent leaves D->fl stale *)
 Definition w_xcache_pre c := run c init_state [konst false None p_ 0; OAlias None al_ [112; 47; 120] 0; OList None S_ALL 0].
 Definition w_xcache_op := konst true (Some p_) x_ 0.
 Lemma w_xcache : inv_full (w_xcache_pre pinned) = true /\ cache_consistent (fst (step pinned (w_xcache_pre pinned) w_xcache_op)) = false.
-Proof. repeat split; vm. Qed.
-(* gd_madd*() with a parent code that carries the leading '.' which lookup drops: on the current tree
-   the subfield gets a wrong name at a wrong index (replayed on the library by the check; left unmodelled);
-   with the proposed repair C15-14 the call is an ordinary gd_madd *)
-Definition w_dotpar_pre c := run c init_state [konst false None [97; 98] 0].
-Definition w_dotpar_op := OAdd false (Some [46; 97; 98]) x_ T_PHASE 0 false [[97; 98]] [None] 0%Z.
-Lemma w_dotpar : snd (step pinned (w_dotpar_pre pinned) w_dotpar_op) = RUnmodelled
-  /\ inv_full (fst (step fixed (w_dotpar_pre fixed) w_dotpar_op)) = true.
 Proof. repeat split; vm. Qed.
